@@ -351,6 +351,7 @@ pub fn record(args: &Args) {
     };
     let long_lim = Limits { max_days: args.get_u64("long-days", 160_000) as i64, max_cost: lim.max_cost, max_intervals: 12 };
     let long_every = args.get_u64("long-every", 6);
+    let commented = args.get_u64("comments", 0) == 1;
     // deterministic work budget: total number of schedule_at calls (hook counter) of this process
     let work_budget = args.get_u64("work-budget", 4_000_000);
     let mut work = 0u64;
@@ -421,6 +422,7 @@ pub fn record(args: &Args) {
             break;
         }
         let src: String = match rng.below(10) {
+            _ if commented => crate::exprs::commented_expression(&mut rng),
             0..=6 if mode == "bounds" => rng.pick(BOUNDS_FAMILY).to_string(),
             0..=2 => rng.pick(HINT_FAMILY).to_string(),
             3 | 4 if !corp.is_empty() => rng.pick(&corp).clone(),
